@@ -5,4 +5,4 @@ From Coq Require Import Extraction ExtrOcamlBasic.
 From H263V Require Import base.Prelude model.Deblock.
 Separate Extraction
   Deblock.deblock Deblock.process Deblock.process_lane Deblock.annexJ Deblock.quant_to_strength
-  Deblock.table_J2.
+  Deblock.table_J2 Deblock.annexJ_flat Deblock.updown_ramp.
